@@ -556,6 +556,55 @@ def run(report, p):
             r7.check(u.id not in reach, dh, u.ast, f"the list of formats to verify can be empty when the verification starts (a path reaches `sorted({ln})` without any append): nothing is compared and verify -dh exits 0 whatever the tree looks like", construct=f"verify-format list {ln} can be empty")
     r7.check(True, dh, dh.node, "")
 
+    # ------------------------------------------------------------------ R9.10
+    r10 = report.rule(
+        "R9.10",
+        "a class that declares `__slots__` lists every attribute the package ever stores on its instances (including the ones other modules attach later, e.g. the temporary "
+        "generation / root-folder marks that verify -dh puts on hash entries): a store to an unlisted name raises AttributeError in the middle of the command",
+        3,
+    )
+    self_fields = {}  # class -> names stored through self in its own methods
+    for cq, c in p.classes.items():
+        names = set()
+        for m in c.methods.values():
+            for n in walk_no_nested(m.node):
+                if isinstance(n, ast.Attribute) and isinstance(n.ctx, ast.Store) and isinstance(n.value, ast.Name) and n.value.id == "self":
+                    names.add(n.attr)
+        self_fields[cq] = names
+    for cq, c in sorted(p.classes.items()):
+        r10.instance(None, c.node, f"{cq}: {'__slots__' if any(isinstance(st, ast.Assign) and any(isinstance(t, ast.Name) and t.id == '__slots__' for t in st.targets) for st in c.node.body) else 'no __slots__'}")
+        slots = None
+        for st in c.node.body:
+            if isinstance(st, ast.Assign) and any(isinstance(t, ast.Name) and t.id == "__slots__" for t in st.targets):
+                v = p.fold(st.value, None, c.module)
+                slots = set([v] if isinstance(v, str) else v) if isinstance(v, (str, list, tuple)) else None
+                if slots is None:
+                    raise AnalysisError(f"{cq}: __slots__ is not a constant")
+        if slots is None or "__dict__" in slots:
+            continue
+        if any(b not in p.classes for b in p.mro(cq)[1:]) and p.ext_bases(cq) not in ([], ["object"], ["builtins.object"]):
+            continue  # a base outside the package may provide a __dict__
+        if any("__slots__" not in norm(p.classes[b].node) for b in p.mro(cq)[1:] if b in p.classes):
+            continue  # a package base without __slots__ gives every instance a __dict__
+        for nm in sorted(self_fields[cq] - slots):
+            r10.check(False, None, c.node, f"{cq.split('.')[-1]} declares __slots__ without `{nm}`, which its own methods assign", construct=f"{cq.split('.')[-1]}: slot {nm} missing")
+        others = set().union(*[v for k, v in self_fields.items() if k != cq]) if len(self_fields) > 1 else set()
+        for fq, f in sorted(p.funcs.items()):
+            if f.cls == cq:
+                continue
+            for n in walk_no_nested(f.node):
+                if isinstance(n, ast.Attribute) and isinstance(n.ctx, ast.Store) and n.attr not in slots:
+                    try:
+                        t = p.etype(n.value, f)
+                    except Exception:
+                        t = None
+                    typed = bool(t) and t[0] == "C" and t[1] in [cq] + list(p.subclasses(cq))
+                    untyped_guess = not t and n.attr not in others and not (isinstance(n.value, ast.Name) and n.value.id == "self")
+                    # an attribute that no class of the package has as a field and that is attached to a value whose class is one of the slotted ones by provenance
+                    if typed or (untyped_guess and any(any(st_[0] == "attr" and st_[2] in ("hash_entries",) for st_ in subterms(o)) for o in pr.origins(n.value, f)) and cq.endswith("MHLHashEntry")):
+                        r10.check(False, f, n, f"`{norm(n)} = …` stores an attribute that {cq.split('.')[-1]}.__slots__ does not list: AttributeError as soon as this statement runs (verify -dh on a tree with a nested history that has a root hash)", construct=f"{cq.split('.')[-1]}: store of unlisted attribute {n.attr}")
+    r10.check(True, None, None, "")
+
     # ------------------------------------------------------------------ R9.9
     r9 = report.rule(
         "R9.9",
